@@ -16,9 +16,9 @@ LEVEL = "exploration"
 RULE = (
     "Protocol level against a real tracker process (resource_tracker.main(fd) in a fresh interpreter): Hypothesis draws a "
     "history of up to 25 requests from 1-3 clients (each an own copy of the write end of the command pipe) over 4 files, a "
-    "folder containing two tracked files and an empty folder: REGISTER / MAYBE_UNLINK / UNREGISTER (balanced and "
+    "folder containing two tracked files and a tracked sub-folder, and an empty folder: REGISTER / MAYBE_UNLINK / UNREGISTER (balanced and "
     "unbalanced), PROBE, malformed whole lines (unknown command, unknown resource type, missing fields, non-ASCII, name "
-    "with ':'), a resource type that does not match the path, and clients exiting at drawn points; finally the last client "
+    "with ':'), a resource type that does not match the path, clients exiting at drawn points, and the client removing a path itself or re-creating a deleted path without registering it; finally the last client "
     "closes.  After every request the harness synchronises through the FIFO pipe (registers and maybe-unlinks a fresh "
     "sentinel file and waits for it to disappear) and compares the set of existing paths with a refcount model: REGISTER +1, "
     "UNREGISTER drops the entry, MAYBE_UNLINK -1 and deletes exactly at 0 (a deleted folder takes its content with it), "
@@ -35,8 +35,9 @@ ASSUMPTIONS = [
 SHARDS = {"quick": 12, "thorough": 16}
 TIMEOUT = {"quick": 900, "thorough": 3600}
 
-PATHS = ["f0", "f1", "f2", "f3", "d0", "d0/g0", "d0/g1", "d1"]
-KIND = {"f0": "file", "f1": "file", "f2": "file", "f3": "file", "d0": "folder", "d0/g0": "file", "d0/g1": "file", "d1": "folder"}
+PATHS = ["f0", "f1", "f2", "f3", "d0", "d0/g0", "d0/g1", "d0/s", "d1"]
+KIND = {"f0": "file", "f1": "file", "f2": "file", "f3": "file", "d0": "folder", "d0/g0": "file", "d0/g1": "file", "d0/s": "folder",
+        "d1": "folder"}
 
 
 def _steps(focus):
@@ -54,11 +55,21 @@ def _steps(focus):
                                                    "UNREGISTER:{nope}:file", "MAYBE_UNLINK:{nope}:folder", "register:{f3}:file"]),
                   st.integers(0, 2)).map(list),
         st.tuples(st.just("exit"), st.integers(0, 2)).map(list),
+        # the client removes a path itself / re-creates a path that is gone, without telling the tracker
+        st.tuples(st.sampled_from(["remove", "recreate", "recreate"]), paths, st.just(0)).map(list),
     )
     # an episode: k registrations of one path by drawn clients followed by m maybe-unlinks (count returns to zero when m >= k)
     episode = st.tuples(paths, st.integers(1, 3), st.integers(1, 4), st.lists(st.integers(0, 2), min_size=7, max_size=7)).map(
         lambda t: [["req", "REGISTER", t[0], t[3][i]] for i in range(t[1])] + [["req", "MAYBE_UNLINK", t[0], t[3][3 + i]] for i in range(t[2])])
-    chunk = st.one_of(req.map(lambda r: [r]), req.map(lambda r: [r]), episode)
+    # the same with the path removed behind the tracker's back before its count returns to zero (the tracker's own
+    # cleanup then fails) and re-created, unregistered, afterwards
+    vanish = st.tuples(st.sampled_from(["d0", "d0/s", "d1", "d0/s", "f0", "d0/g0"]), st.integers(1, 2), st.integers(1, 3),
+                       st.sampled_from(["remove", "remove-parent"]), st.booleans()).map(
+        lambda t: [["req", "REGISTER", t[0], 0] for _ in range(t[1])]
+        + ([["remove", t[0], 0]] if (t[3] == "remove" or "/" not in t[0]) else [["req", "REGISTER", "d0", 0], ["req", "MAYBE_UNLINK", "d0", 0]])
+        + [["req", "MAYBE_UNLINK", t[0], 0] for _ in range(t[2])]
+        + ([["recreate", "d0", 0]] if "/" in t[0] else []) + ([["recreate", t[0], 0]] if t[4] else []))
+    chunk = st.one_of(req.map(lambda r: [r]), req.map(lambda r: [r]), episode, vanish)
     return st.lists(chunk, min_size=1, max_size=10).map(lambda cs: [r for c in cs for r in c][:25])
 
 
@@ -94,7 +105,7 @@ def run_case(spec):
     scratch = os.environ.get("VF_SCRATCH", "/tmp")
     top = os.path.join(scratch, "c20-%d" % os.getpid())
     shutil.rmtree(top, ignore_errors=True)
-    os.makedirs(os.path.join(top, "d0"))
+    os.makedirs(os.path.join(top, "d0", "s"))
     os.makedirs(os.path.join(top, "d1"))
     for p in PATHS:
         if KIND[p] == "file":
@@ -166,6 +177,25 @@ def run_case(spec):
                     nontrivial = True
                     classes.append("client-exit-with-registrations")
                 os.close(clients.pop(c))
+            elif op == "remove":
+                rel = step[1]
+                if rel in alive_paths:
+                    if KIND[rel] == "folder":
+                        shutil.rmtree(full(rel), ignore_errors=True)
+                    else:
+                        os.unlink(full(rel))
+                    model_delete(rel)
+                    classes.append("path-removed-by-client")
+            elif op == "recreate":
+                rel = step[1]
+                if rel not in alive_paths and ("/" not in rel or rel.split("/")[0] in alive_paths):
+                    if KIND[rel] == "folder":
+                        os.makedirs(full(rel), exist_ok=True)
+                    else:
+                        with open(full(rel), "w") as fh:
+                            fh.write("x")
+                    alive_paths.add(rel)
+                    classes.append("path-recreated-without-registration")
             elif op == "probe":
                 send(fd, "PROBE:0:noop")
             elif op == "raw":
